@@ -1,7 +1,7 @@
 """Obligations for C05."""
 from oblib import ob
 
-BOUNDS = {'quick': 'Inside: [typed] json.UnmarshalRead equals json.Unmarshal (success, value) for a first value (string literal, array, digits) of exactly 63/64/65/128 bytes (thorough: 62-66, 127-129, 256) followed by 1-2 symbolic bytes, over a reader that fills the buffer or delivers 1 (thorough: also 7) bytes per Read, with and without EOF together with the last bytes; the reader reports repeated Read calls with an empty buffer (non-termination) as a violation. [token level] a Decoder with buffer capacity 2, 3, 4, 8 (and the default 64) over a reader whose first 2-9 Read sizes are chosen by the solver (0..min(len(p),rest), never two empty reads in a row, optional EOF together with the last bytes; later reads deliver one byte), inputs = 2-3 fully symbolic bytes and templates up to 18 bytes with symbolic holes ([1,"?"], {"?":[?]} 3, 1{"a?":{, 1{"ab":{, 1 {"a":{"?":tru), 2-3 calls each chosen by the solver from ReadToken/ReadValue/SkipValue/PeekKind, compared call by call with a buffer-mode decoder over the whole input; one transient read error at a solver-chosen Read (ReadToken/ReadValue only); the resumption contract of ConsumeStringResumable / ConsumeNumberResumable for every cut point of templates incl. surrogate pairs. Outside: longer inputs and call sequences, more than one fault, typed UnmarshalRead/UnmarshalDecode (C03 route covers UnmarshalRead into any).', 'thorough': 'Same families (the thorough tier currently equals the quick tier plus more resumption templates).'}
+BOUNDS = {'quick': 'Inside: [typed] json.UnmarshalRead equals json.Unmarshal (success, value) for a first value (string literal, array, digits) of exactly 63/64/65/128 bytes (thorough: 62-66, 127-129, 256) followed by 1-2 symbolic bytes, over a reader that fills the buffer or delivers 1 (thorough: also 7) bytes per Read, with and without EOF together with the last bytes; the reader reports repeated Read calls with an empty buffer (non-termination) as a violation. UnmarshalDecode of two values over such a reader, the second (a string literal of 40/70/130 bytes with two symbolic letters) extending past the buffered data, with and without ReportErrorsWithLegacySemantics. [token level] a Decoder with buffer capacity 2, 3, 4, 8 (and the default 64) over a reader whose first 2-9 Read sizes are chosen by the solver (0..min(len(p),rest), never two empty reads in a row, optional EOF together with the last bytes; later reads deliver one byte), inputs = 2-3 fully symbolic bytes and templates up to 18 bytes with symbolic holes ([1,"?"], {"?":[?]} 3, 1{"a?":{, 1{"ab":{, 1 {"a":{"?":tru), 2-3 calls each chosen by the solver from ReadToken/ReadValue/SkipValue/PeekKind, compared call by call with a buffer-mode decoder over the whole input; one transient read error at a solver-chosen Read (ReadToken/ReadValue only); the resumption contract of ConsumeStringResumable / ConsumeNumberResumable for every cut point of templates incl. surrogate pairs. Outside: longer inputs and call sequences, more than one fault, typed UnmarshalRead/UnmarshalDecode (C03 route covers UnmarshalRead into any).', 'thorough': 'Same families (the thorough tier currently equals the quick tier plus more resumption templates).'}
 ASSUMPTIONS = []
 
 
@@ -30,4 +30,9 @@ def obligations(tier):
                         if q and eof and n != 64:
                             continue
                         L.append(ob("unmarshalread/kind=%d/n=%d/tail=%s/chunk=%d/eof=%d" % (kind, n, tail.replace(" ", "_"), chunk, eof), ".", "VerifC05UnmarshalRead", [kind, n, tail, chunk, eof]))
+    # UnmarshalDecode over a stream: a second value that extends past the buffered data, with and without the v1 pre-validation option
+    for n in ((40, 70, 130) if q else (40, 60, 70, 130, 260)):
+        for chunk in (0, 1):
+            for legacy in (False, True):
+                L.append(ob("decodestream/n=%d/chunk=%d/legacy=%d" % (n, chunk, legacy), ".", "VerifC05DecodeStream", [n, chunk, legacy], covers=["checked"]))
     return L
